@@ -28,9 +28,18 @@ deriving Repr
 
 def lower (s : Str) : Str := s.map toLowerAscii
 
-/-- `validateUUIDFormat`: 36 characters with dashes at 8, 13, 18, 23 — nothing else. -/
-def uuidShape (v : Str) : Bool :=
+/-- `validateUUIDFormat` before `fix: go-http: check hex digits in the uuid header format
+validator`: 36 characters with dashes at 8, 13, 18, 23 — nothing else. -/
+def uuidShapeBeforeFix (v : Str) : Bool :=
   v.length == 36 && v[8]? == some '-' && v[13]? == some '-' && v[18]? == some '-' && v[23]? == some '-'
+
+def isHex (c : Char) : Bool := isDigitAscii c || ('a' ≤ c && c ≤ 'f') || ('A' ≤ c && c ≤ 'F')
+
+def isDashPos (i : Nat) : Bool := i == 8 || i == 13 || i == 18 || i == 23
+
+/-- `validateUUIDFormat`: 36 characters, dashes at 8, 13, 18, 23, a hex digit everywhere else. -/
+def uuidShape (v : Str) : Bool :=
+  uuidShapeBeforeFix v && v.zipIdx.all fun p => isDashPos p.2 || isHex p.1
 
 /-- `validateEmailFormat`: contains '@' and splits into exactly two non-empty parts. -/
 def emailShape (v : Str) : Bool :=
@@ -107,7 +116,6 @@ def specMerged (svc meth : List HSpec) : List HSpec :=
 
 def specRequired (svc meth : List HSpec) : List HSpec := (specMerged svc meth).filter (·.required)
 
-def isHex (c : Char) : Bool := isDigitAscii c || ('a' ≤ c && c ≤ 'f') || ('A' ≤ c && c ≤ 'F')
 
 /-- values NO reading of the published type/format allows (a conservative subset). -/
 def clearlyInvalid (lib : Lib) (h : HSpec) (v : Str) : Bool :=
